@@ -588,6 +588,72 @@ func c20PairSource(o c20Pair) *c20Source {
 	return s
 }
 
+// ---- requests registered directly on the builder ----
+//
+// Three blobs: X is requested for two bucket ids with the same hasher (in the
+// given order; variant 4/5: twice for the same bucket), Y only for the
+// bytes-by-hash bucket, Z only for the trie bucket. Requesters have no follow-ups.
+
+type c20NullRequester struct{ called *int64 }
+
+func (r c20NullRequester) OnData(bs []byte, b merkle.Builder) error {
+	atomic.AddInt64(r.called, 1)
+	return nil
+}
+
+var c20DirectRegs = [][2]db.BucketID{
+	{db.MerkleTrie, db.BytesByHash}, {db.BytesByHash, db.MerkleTrie},
+	{db.MerkleTrie, db.MerkleTrie}, {db.BytesByHash, db.BytesByHash},
+}
+
+func c20DirectSource(variant int) *c20Source {
+	reg := c20DirectRegs[variant%len(c20DirectRegs)]
+	xLast := variant >= len(c20DirectRegs) // X's requests registered after Y and Z
+	blob := func(n string) string { return "direct blob " + n + " " + strings.Repeat(n, 20) }
+	X, Y, Z := blob("X"), blob("Y"), blob("Z")
+	h := func(v string) string { return string(crypto.SHA3Sum256([]byte(v))) }
+	s := &c20Source{name: fmt.Sprintf("direct{X requested for %q then %q, Y for S, Z for trie bucket; X registered last=%v}", reg[0], reg[1], xLast)}
+	s.items = append(s.items, c20Item{reg[0], h(X), X})
+	if reg[1] != reg[0] {
+		s.items = append(s.items, c20Item{reg[1], h(X), X})
+	}
+	s.items = append(s.items, c20Item{db.BytesByHash, h(Y), Y}, c20Item{db.MerkleTrie, h(Z), Z})
+	sort.Slice(s.items, func(i, j int) bool {
+		if s.items[i].key != s.items[j].key {
+			return s.items[i].key < s.items[j].key
+		}
+		return s.items[i].bucket < s.items[j].bucket
+	})
+	s.index()
+	s.root = []byte(h(X))
+	s.start = func(b merkle.Builder) (interface{}, error) {
+		calls := new(int64)
+		rx := func() {
+			b.RequestData(reg[0], []byte(h(X)), c20NullRequester{calls})
+			b.RequestData(reg[1], []byte(h(X)), c20NullRequester{calls})
+		}
+		if !xLast {
+			rx()
+		}
+		b.RequestData(db.BytesByHash, []byte(h(Y)), c20NullRequester{calls})
+		b.RequestData(db.MerkleTrie, []byte(h(Z)), c20NullRequester{calls})
+		if xLast {
+			rx()
+		}
+		return calls, nil
+	}
+	s.verify = func(target db.Database) string {
+		for _, it := range s.items {
+			bk, _ := target.GetBucket(it.bucket)
+			if v, err := bk.Get([]byte(it.key)); err != nil || string(v) != it.val {
+				return fmt.Sprintf("bucket %q does not hold %x (err=%v)", it.bucket, it.key[:4], err)
+			}
+		}
+		return ""
+	}
+	return s
+}
+
 // ---- forged payloads ----
 
 const (
@@ -639,6 +705,7 @@ type c20Case struct {
 	Source string   `json:"source"`
 	World  int      `json:"world,omitempty"` // 1 small, 2 large, 3 large with code == storage trie node, 4 two identical contracts
 	Pair   *c20Pair `json:"trie_pair,omitempty"`
+	Direct int      `json:"direct_requests_variant,omitempty"` // 1-based
 	Obj    *c20Obj  `json:"object_trie,omitempty"`
 	KVs    []c20KV  `json:"map,omitempty"`
 	Faults int      `json:"max_faults"`
@@ -791,9 +858,13 @@ func (in *c20Inst) apply(cx *c20Ctx, op int, cs c20Case, count bool) bool {
 	if op < len(src.items) {
 		it := src.items[op]
 		bid := it.bucket
+		// the delivery is labelled with the item's own bucket id: for a hash that
+		// the source holds in two buckets both labels are explored (items i and j),
+		// whichever bucket was requested first and even if only the other one is
+		// requested at the moment (both buckets use the same hasher)
 		for _, rq := range reqs {
 			if rq.key == it.key {
-				expectOK, want, bid = true, rq, rq.buckets[0]
+				expectOK, want = true, rq
 			}
 		}
 		switch {
@@ -995,7 +1066,7 @@ func c20Run(cx *c20Ctx, src *c20Source, cs c20Case, hist []byte) (string, bool) 
 		cs.Ops = append(cs.Ops, int(o))
 		last := i == len(hist)-2
 		if last {
-			in.invariants(cx, c20Case{cs.Source, cs.World, cs.Pair, cs.Obj, cs.KVs, cs.Faults, cs.Ops[:i]})
+			in.invariants(cx, c20Case{cs.Source, cs.World, cs.Pair, cs.Direct, cs.Obj, cs.KVs, cs.Faults, cs.Ops[:i]})
 		}
 		if !in.apply(cx, int(o), cs, last) {
 			return "", false
@@ -1045,12 +1116,12 @@ func c20Orders(cx *c20Ctx, src *c20Source, cs c20Case, prefix []int, stop func()
 		return
 	}
 	for _, rq := range reqs {
-		if is := src.byKey[rq.key]; len(is) > 0 {
-			c20Orders(cx, src, cs, append(append([]int(nil), prefix...), is[0]), stop)
+		for _, idx := range src.byKey[rq.key] { // every bucket label the source knows for this hash
+			c20Orders(cx, src, cs, append(append([]int(nil), prefix...), idx), stop)
 			if in.faults < in.maxFaults {
 				// the same delivery with every injected fault (every position of every order)
 				for k := 0; k < c20NumFaults; k++ {
-					c20Orders(cx, src, cs, append(append([]int(nil), prefix...), src.nBase()+is[0]*c20NumFaults+k), stop)
+					c20Orders(cx, src, cs, append(append([]int(nil), prefix...), src.nBase()+idx*c20NumFaults+k), stop)
 				}
 			}
 		}
@@ -1087,6 +1158,9 @@ func c20SourceOf(c c20Case) *c20Source {
 	if c.Pair != nil {
 		return c20PairSource(*c.Pair)
 	}
+	if c.Direct > 0 {
+		return c20DirectSource(c.Direct - 1)
+	}
 	return c20TrieSource(c.KVs)
 }
 
@@ -1103,7 +1177,7 @@ func TestVerifC20(t *testing.T) {
 			h = append(h, byte(o))
 		}
 		fmt.Println("replaying", src.describe(c))
-		c20Run(cx, src, c20Case{Source: c.Source, World: c.World, KVs: c.KVs, Obj: c.Obj, Pair: c.Pair, Faults: c.Faults}, h)
+		c20Run(cx, src, c20Case{Source: c.Source, World: c.World, KVs: c.KVs, Obj: c.Obj, Pair: c.Pair, Direct: c.Direct, Faults: c.Faults}, h)
 		r.Finish(false)
 		return
 	}
@@ -1112,7 +1186,7 @@ func TestVerifC20(t *testing.T) {
 		nk, nv, maxN, ordersUpTo = 9, 3, 5, 8
 	}
 	maps := c20Enumerate(c20AllKeys[:nk], c20AllVals[:nv], maxN)
-	r.Rule(fmt.Sprintf("sources: every map with 1..%d entries over %d keys (hex %x) x %d values (40-byte -> hashed nodes, 1-byte -> embedded nodes) = %d tries, plus 4 world states (EOA + contract account with nested storage trie, contract code in the bytes-by-hash bucket, validator list; one whose code is byte-identical to a storage trie node; one with two contracts sharing storage trie and code), 72 object tries in which a value blob is byte-identical to a trie node (one hash in two buckets), and 50 pairs of an index trie and an object trie with byte-identical nodes resolved through one builder in both registration orders (one (bucket, hash) requested by two requesters with different follow-ups). Per source an explicit-state BFS to the fixpoint: state = set of delivered items + outstanding requests reported by the real builder; events = deliver item i of the source (requested / delivered before / genuine but not requested yet) and %d forged payloads; every transition replayed on a fresh real builder (layerDB over a recording MapDB). Environment faults: additional events 'deliver item i while the 1st/2nd store Set or the 1st/2nd/3rd bytes-by-hash Get of that delivery fails once' (only when the call really happens), at most 1 per history (thorough: 2 for sources with <= 7 items and the world/object-trie sources, 0 for the 5-entry tries and for the trie pairs); a failed delivery must leave the request outstanding, may only have written the genuine datum, and its repetition must be accepted; 'UnresolvedCount()==0 => store complete' always, 'complete => UnresolvedCount()==0' once no failed delivery is pending. Sources with <= %d items: every complete delivery order enumerated without de-duplication, and for <= 6 items additionally with every single fault at every position. Non-trivial = distinct (source, state)",
+	r.Rule(fmt.Sprintf("sources: every map with 1..%d entries over %d keys (hex %x) x %d values (40-byte -> hashed nodes, 1-byte -> embedded nodes) = %d tries, plus 4 world states (EOA + contract account with nested storage trie, contract code in the bytes-by-hash bucket, validator list; one whose code is byte-identical to a storage trie node; one with two contracts sharing storage trie and code), 72 object tries in which a value blob is byte-identical to a trie node (one hash in two buckets), and 50 pairs of an index trie and an object trie with byte-identical nodes resolved through one builder in both registration orders (one (bucket, hash) requested by two requesters with different follow-ups), and 8 sources whose requests are registered directly with RequestData (a blob requested for the trie bucket and the bytes-by-hash bucket in both orders, or twice for one bucket, before or after two single-bucket blobs). Every delivery is labelled with the bucket id of the delivered item, so a hash held in two buckets is delivered under BOTH labels in every state (whichever bucket was requested first). Per source an explicit-state BFS to the fixpoint: state = set of delivered items + outstanding requests reported by the real builder; events = deliver item i of the source (requested / delivered before / genuine but not requested yet) and %d forged payloads; every transition replayed on a fresh real builder (layerDB over a recording MapDB). Environment faults: additional events 'deliver item i while the 1st/2nd store Set or the 1st/2nd/3rd bytes-by-hash Get of that delivery fails once' (only when the call really happens), at most 1 per history (thorough: 2 for sources with <= 7 items and the world/object-trie sources, 0 for the 5-entry tries and for the trie pairs); a failed delivery must leave the request outstanding, may only have written the genuine datum, and its repetition must be accepted; 'UnresolvedCount()==0 => store complete' always, 'complete => UnresolvedCount()==0' once no failed delivery is pending. Sources with <= %d items: every complete delivery order enumerated without de-duplication, and for <= 6 items additionally with every single fault at every position. Non-trivial = distinct (source, state)",
 		maxN, nk, c20AllKeys[:nk], nv, len(maps), c20NumForged, ordersUpTo))
 	r.Assume("the order in which Requests() lists outstanding requests is not part of the state (OnData looks requests up by hash)",
 		"source and target stores are MapDBs that never fail; single goroutine",
@@ -1151,6 +1225,12 @@ func TestVerifC20(t *testing.T) {
 		cases = append(cases, c20Case{Source: s.name, Pair: &o})
 	}
 	r.Set("trie_pair_sources_two_requesters_with_different_followups", len(c20EnumeratePairs()))
+	for v := 0; v < 2*len(c20DirectRegs); v++ {
+		s := c20DirectSource(v)
+		sources = append(sources, s)
+		cases = append(cases, c20Case{Source: s.name, Direct: v + 1})
+	}
+	r.Set("direct_RequestData_sources", 2*len(c20DirectRegs))
 	r.Sanity(nObjShared >= 20, "only %d object-trie sources with a hash in two buckets", nObjShared)
 	r.Set("sources_with_a_hash_in_two_buckets", nObjShared+1)
 	var mu sync.Mutex
